@@ -160,6 +160,7 @@ class RngWorld(World):
             # seed=None): it is process-global state too, so the session seeds it
             self._seed_numba((plan["seed"] * 7919 + 13) % (2 ** 32))
         first = {}
+        held = []  # masks already handed to the caller: (array, digest, step)
         acts = []
         judged = 0
         site = "poisson"
@@ -301,6 +302,11 @@ class RngWorld(World):
                     if np.any((m != 0) & (ge >= 1)):
                         stats["probes.rng_sample_outside_geometric_ellipse"] += 1
                 res.trace.append({"a": "poisson", "mask": codec.bytes_digest(mask), "acc": codec.fnum(acc, 6)})
+                held.append((mask, codec.bytes_digest(mask), step))
+            # a mask that was handed to the caller earlier stays what it was
+            for hm, hd, hs in held:
+                if hs != step and codec.bytes_digest(hm) != hd:
+                    raise Violation("earlier_mask_changed", site, step, {"returned_at_step": hs, "op": op})
         res.nontrivial = judged > 0
         res.sim_time = float(len(plan["schedule"]))
         res.fingerprint = codec.json_digest([
